@@ -4,21 +4,28 @@ let i = int_of_n
 
 let tag (m : cmsg) : Stdlib.String.t = match m with
   | CR (pr, fl) -> Printf.sprintf "cr:%d:%d" (i pr) (i fl)
-  | TLS -> "tls"
+  | CSSP -> "cssp"
   | CI (len, sel) -> Printf.sprintf "ci:%d:%d" (i len) (i sel)
   | ED -> "ed"
   | AU -> "au"
   | CJ (ini, ch) -> Printf.sprintf "cj:%d:%d" (i ini) (i ch)
   | INFO (ini, ch, len) -> Printf.sprintf "info:%d:%d:%d:64:65875" (i ini) (i ch) (i len)
 
-let tags (l : cmsg list) = if l = [] then "-" else String.concat "," (List.map tag l)
+let join l = if l = [] then "-" else String.concat "," l
+(* what is visible on the raw transport: the frames written in clear, then `tls` if a handshake was started *)
+let raw_tags (ev : tev list) =
+  join (List.concat (List.map (fun e -> match e with RawWrite m -> [tag m] | TlsStart _ -> ["tls"] | TlsWrite _ -> []) ev))
+let tls_tags (ev : tev list) =
+  join (List.concat (List.map (fun e -> match e with TlsWrite m -> [tag m] | _ -> []) ev))
+let handshake (ev : tev list) =
+  List.fold_left (fun acc e -> match e with TlsStart true -> "ok" | TlsStart false -> "fail" | _ -> acc) "-" ev
 
 let hexlen (s : Stdlib.String.t) = if s = "-" then 0 else String.length s / 2
 
 let op_conn public_api args = match args with
   | offered :: auth :: ram :: jo :: _name :: dom :: user :: pw :: chunks ->
     let cfg = { offered = n_of_int (int_of_string offered); has_auth = (auth = "1"); restricted_admin = (ram = "1");
-                user_first = (jo = "u"); cred_units = n_of_int (hexlen dom + hexlen user + hexlen pw) } in
+                user_first = (jo = "u"); cred_units = n_of_int (hexlen dom + hexlen user + hexlen pw); check_cert = false } in
     let cs = List.map parse_bytes chunks in
     let (o, st) = connect_impl (prof ()) cfg cs in
     let res = match o with
@@ -26,7 +33,20 @@ let op_conn public_api args = match args with
       | Err e -> "err:" ^ err_name e
       | Panic -> "panic"
       | Spin -> "spin" in
-    Printf.sprintf "%s w=%s" res (tags st.s_out)
+    Printf.sprintf "%s w=%s" res (raw_tags st.s_ev)
+  | _ -> "bad-args"
+
+(* neg <api> <offered> <auth> <ram> <check> <identity> <jo> <name> <dom> <user> <pw> <reply> <frames...> *)
+let op_neg args = match args with
+  | api :: offered :: auth :: ram :: check :: ident :: jo :: _name :: dom :: user :: pw :: reply :: post ->
+    let cfg = { offered = n_of_int (int_of_string offered); has_auth = (api = "connector" || auth = "1"); restricted_admin = (ram = "1");
+                user_first = (jo = "u"); cred_units = n_of_int (hexlen dom + hexlen user + hexlen pw); check_cert = (check = "1") } in
+    (* the server answers the connection request with `reply` (nothing: the stream ends), then sends the frames *)
+    let post = List.map parse_bytes post in
+    let cs = if reply = "-" then [] else parse_bytes reply :: post in
+    let (o, st) = negotiate_impl (prof ()) (ident = "0") (ident <> "n") cfg cs post in
+    let res = match o with Ok _ -> "ok" | Err e -> "err:" ^ err_name e | Panic -> "panic" | Spin -> "spin" in
+    Printf.sprintf "%s w=%s hs=%s in=%s" res (raw_tags st.s_ev) (handshake st.s_ev) (tls_tags st.s_ev)
   | _ -> "bad-args"
 
 let op_gcc args = match args with
@@ -51,6 +71,7 @@ let op_lic args = match args with
 let () = main_loop (fun op args -> match op with
   | "conn" -> op_conn false args
   | "connector" -> op_conn true args
+  | "neg" -> op_neg args
   | "gcc" -> op_gcc args
   | "lic" -> op_lic args
   | _ -> "unknown-op:" ^ op)
